@@ -16,6 +16,10 @@ import (
 	"bytes"
 	crand "crypto/rand"
 	"fmt"
+	"io"
+	"log"
+	"net/http"
+	"net/http/httptest"
 	"net/url"
 	"os"
 	"strings"
@@ -200,8 +204,12 @@ type hist struct {
 	r        drv.Rand
 	st       *refstore.Store
 	fix      map[int64]*opfix.Fixture
-	origin   string
-	path     string
+	mode     string // static | host | forwarded: how the provider derives its issuer
+	origin   string // static: scheme://host
+	ipath    string // issuer path component ("" or "/...")
+	insecure bool   // dynamic issuers: http instead of https
+	path     string // UserFormPath
+	formURL  string // deprecated absolute UserFormURL ("" = UserFormPath is used)
 	interval int
 	life     int
 	uc       ucCfg
@@ -219,10 +227,27 @@ func (h *hist) fixture(life int) *opfix.Fixture {
 	if f, ok := h.fix[int64(life)]; ok {
 		return f
 	}
-	f, err := opfix.New(h.st, opfix.Options{Issuer: h.origin, Device: op.DeviceAuthorizationConfig{
+	dev := op.DeviceAuthorizationConfig{
 		Lifetime: time.Duration(life) * time.Second, PollInterval: time.Duration(h.interval) * time.Second,
-		UserFormPath: h.path,
-		UserCode:     op.UserCodeConfig{CharSet: string(h.uc.charset), CharAmount: h.uc.n, DashInterval: h.uc.dash}}})
+		UserFormPath: h.path, UserFormURL: h.formURL,
+		UserCode: op.UserCodeConfig{CharSet: string(h.uc.charset), CharAmount: h.uc.n, DashInterval: h.uc.dash}}
+	if h.formURL != "" {
+		dev.UserFormPath = ""
+	}
+	var issuer func(bool) (op.IssuerFromRequest, error)
+	switch h.mode {
+	case "host":
+		issuer = op.IssuerFromHost(h.ipath)
+	case "forwarded":
+		issuer = op.IssuerFromForwardedOrHost(h.ipath)
+	default:
+		issuer = op.StaticIssuer(h.origin + h.ipath)
+	}
+	opts := opfix.Options{Issuer: h.origin + h.ipath, Device: dev}
+	if h.insecure || strings.HasPrefix(h.origin, "http://") {
+		opts.ProviderOpts = []op.Option{op.WithAllowInsecure()}
+	}
+	f, err := opfix.NewWithIssuer(h.st, opts, issuer)
 	if err != nil {
 		panic(err)
 	}
@@ -245,6 +270,50 @@ func errResp(resp *opfix.Resp) string {
 	return "ROther"
 }
 
+var hostPool = []string{"op.example.com", "a.example", "b.example:8443", "login.c.example"}
+
+// reqMeta: the Host a request arrives under and its Forwarded header.
+type reqMeta struct {
+	host   string
+	header string  // raw Forwarded header value ("" = none)
+	fwd    *string // its host parameter, if it has one
+}
+
+func (h *hist) meta() reqMeta {
+	m := reqMeta{host: drv.Pick(h.r, hostPool)}
+	if h.r.Chance(1, 2) {
+		fh := drv.Pick(h.r, hostPool)
+		q := fh
+		if strings.Contains(fh, ":") {
+			q = `"` + fh + `"`
+		}
+		switch h.r.IntN(4) {
+		case 0:
+			m.header, m.fwd = "host="+q, &fh
+		case 1:
+			m.header, m.fwd = "for=192.0.2.60;proto=http;host="+q, &fh
+		case 2:
+			m.header, m.fwd = "host="+q+";by=203.0.113.43", &fh
+		default:
+			m.header = "for=192.0.2.60;proto=https" // no host parameter: the request Host counts
+		}
+	}
+	return m
+}
+
+// post sends a form under a chosen Host / Forwarded header (no sockets).
+func post(f *opfix.Fixture, router opfix.Router, m reqMeta, path string, form url.Values, basic []string) *opfix.Resp {
+	req := httptest.NewRequest(http.MethodPost, "https://"+m.host+path, strings.NewReader(form.Encode()))
+	req.Header.Set("Content-Type", "application/x-www-form-urlencoded")
+	if m.header != "" {
+		req.Header.Set("Forwarded", m.header)
+	}
+	if len(basic) == 2 {
+		req.SetBasicAuth(url.QueryEscape(basic[0]), url.QueryEscape(basic[1]))
+	}
+	return opfix.Do(f.Handlers[router], req)
+}
+
 func (h *hist) authz(router opfix.Router, cr creds, owner int, scopes []string, expired bool) {
 	life := h.life
 	if expired {
@@ -259,8 +328,10 @@ func (h *hist) authz(router opfix.Router, cr creds, owner int, scopes []string, 
 	cr.form(form)
 	now := time.Now().UnixNano()
 	var resp *opfix.Resp
-	pinned(rnd, func() { resp = f.Post(router, "/device_authorization", form, cr.basic, "") })
-	h.ops = append(h.ops, emit.Ctor("OpAuthz", routerCoq(router), cr.coq(), emit.StrList(scopes), emit.Z(now), emit.Z(int64(life)), emit.Bytes(rnd)))
+	m := h.meta()
+	pinned(rnd, func() { resp = post(f, router, m, "/device_authorization", form, cr.basic) })
+	h.ops = append(h.ops, emit.Ctor("OpAuthz", routerCoq(router), cr.coq(), emit.StrList(scopes), emit.Z(now), emit.Z(int64(life)), emit.Bytes(rnd),
+		emit.Str(m.host), emit.OptStr(m.fwd)))
 	obs := errResp(resp)
 	if resp.Panic == "" && resp.Status == 200 && resp.Str("device_code") != "" {
 		e, ok1 := jnum(resp.JSON, "expires_in")
@@ -274,7 +345,7 @@ func (h *hist) authz(router opfix.Router, cr creds, owner int, scopes []string, 
 		}
 	}
 	h.obs = append(h.obs, obs)
-	h.human = append(h.human, fmt.Sprintf("authz %s %+v scopes=%v life=%d -> %d %s", router, cr, scopes, life, resp.Status, clip(resp.Body)))
+	h.human = append(h.human, fmt.Sprintf("authz %s host=%s forwarded=%q %+v scopes=%v life=%d -> %d %s", router, m.host, m.header, cr, scopes, life, resp.Status, clip(resp.Body)))
 }
 
 func clip(s string) string {
@@ -297,7 +368,7 @@ func (h *hist) poll(router opfix.Router, cr creds, dc string, fault string) {
 		fc = map[string]string{"deadline": "FDeadline", "error": "FError"}[fault]
 	}
 	now := time.Now().UnixNano()
-	resp := f.Post(router, "/oauth/token", form, cr.basic, "")
+	resp := post(f, router, h.meta(), "/oauth/token", form, cr.basic)
 	h.st.FaultMethod, h.st.FaultKind = "", ""
 	h.ops = append(h.ops, emit.Ctor("OpPoll", routerCoq(router), cr.coq(), emit.Str(dc), emit.Z(now), fc))
 	obs := errResp(resp)
@@ -460,8 +531,21 @@ func (h *hist) pollMutated(d issued) {
 
 func historyCase(r drv.Rand, w *emit.Writer, extra map[string]int) {
 	h := &hist{r: r, fix: map[int64]*opfix.Fixture{}, muts: map[string]bool{}}
-	h.origin = drv.Pick(r, []string{"https://op.example.com", "http://localhost:9998", "https://id.example.org:8443"})
+	// issuer: static (with or without a path component) or derived from each request
 	h.path = drv.Pick(r, []string{"/device", "/activate", "/ui/device/code"})
+	h.ipath = drv.Pick(r, []string{"", "", "/oidc", "/auth/realms/main"})
+	switch r.IntN(5) {
+	case 0, 1:
+		h.mode = "static"
+		h.origin = drv.Pick(r, []string{"https://op.example.com", "http://localhost:9998", "https://id.example.org:8443"})
+	case 2:
+		h.mode, h.insecure = "host", r.Chance(1, 4)
+	default:
+		h.mode, h.insecure = "forwarded", r.Chance(1, 4)
+	}
+	if r.Chance(1, 6) { // deprecated absolute form URL instead of the path
+		h.formURL = drv.Pick(r, []string{"https://forms.example.net/activate", "https://op.example.com/ui/device", "http://localhost:9998/device"})
+	}
 	h.interval = drv.Pick(r, []int{1, 5, 10})
 	h.life = drv.Pick(r, []int{60, 300, 600, 3600})
 	h.uc = pickUserCode(r, false)
@@ -561,9 +645,27 @@ func historyCase(r drv.Rand, w *emit.Writer, extra map[string]int) {
 	for i, c := range h.clients {
 		cl[i] = c.coq()
 	}
-	cfg := emit.Ctor("mkCfg", emit.Str(h.origin), emit.Str(h.path), runeList(h.uc.charset), emit.Nat(h.uc.n), emit.Nat(h.uc.dash), emit.Z(int64(h.interval)))
+	var issuer string
+	switch h.mode {
+	case "host":
+		issuer = emit.Ctor("IHost", emit.Bool(h.insecure), emit.Str(h.ipath))
+	case "forwarded":
+		issuer = emit.Ctor("IForwarded", emit.Bool(h.insecure), emit.Str(h.ipath))
+	default:
+		issuer = emit.Ctor("IStatic", emit.Str(h.origin), emit.Str(h.ipath))
+	}
+	formC := emit.Ctor("FormPath", emit.Str(h.path))
+	formTag := "form=path"
+	if h.formURL != "" {
+		formC, formTag = emit.Ctor("FormURL", emit.Str(h.formURL)), "form=url"
+	}
+	ipTag := "issuerpath=0"
+	if h.ipath != "" {
+		ipTag = "issuerpath=1"
+	}
+	cfg := emit.Ctor("mkCfg", issuer, formC, runeList(h.uc.charset), emit.Nat(h.uc.n), emit.Nat(h.uc.dash), emit.Z(int64(h.interval)))
 	in := emit.Ctor("IHist", cfg, emit.List(cl), emit.List(h.ops))
-	tags := []string{"kind=history", "uc=" + h.uc.class, fmt.Sprintf("clients=%d", len(h.clients)), fmt.Sprintf("alphabet=%d", min(len(h.uc.charset), 257))}
+	tags := []string{"kind=history", "issuer=" + h.mode, formTag, ipTag, "uc=" + h.uc.class, fmt.Sprintf("clients=%d", len(h.clients)), fmt.Sprintf("alphabet=%d", min(len(h.uc.charset), 257))}
 	if h.uc.f17() {
 		tags = append(tags, "f17=1")
 	}
@@ -575,11 +677,12 @@ func historyCase(r drv.Rand, w *emit.Writer, extra map[string]int) {
 	}
 	w.Count(fmt.Sprintf("ops=%d", len(h.ops)/4*4))
 	w.Add(emit.Case{Input: in, Observed: emit.Ctor("OHist", emit.List(h.obs)), Tags: tags,
-		Human: map[string]any{"origin": h.origin, "usercode": map[string]any{"charset": string(h.uc.charset), "n": h.uc.n, "dash": h.uc.dash}, "steps": h.human}})
+		Human: map[string]any{"issuer_mode": h.mode, "origin": h.origin, "issuer_path": h.ipath, "insecure": h.insecure, "form_path": h.path, "form_url": h.formURL, "usercode": map[string]any{"charset": string(h.uc.charset), "n": h.uc.n, "dash": h.uc.dash}, "steps": h.human}})
 }
 
 func main() {
 	cfg := drv.Parse()
+	log.SetOutput(io.Discard) // the library reports Forwarded parse problems through the std logger
 	r := drv.NewRand(cfg.Seed)
 	w := emit.NewWriter(cfg.Out, "C16_spec", 0, cfg.Only)
 	n := cfg.Count(600, 9000)
@@ -602,7 +705,7 @@ func main() {
 			Observed: emit.Ctor("OUserCode", emit.Some(emit.Str("BA"))), Tags: []string{"kind=selftest"}})
 	}
 	err := w.Close(emit.Meta{Property: "C16", Tier: cfg.Tier, Seed: cfg.Seed,
-		Rule: "2 of 3 cases: a history of 6-15 device_authorization/approve/deny/poll operations by 2-3 clients (confidential web, public native, optionally a post/JWT/spa/no-device-grant client) on both routers over one refstore: flow-first (start a flow with canonical credentials, poll, approve, poll) with mutations (foreign client, wrong/missing/post credentials, unknown code, user code as device code, storage deadline/error, bogus user codes, expired devices via negative lifetime, exhausted random source); 1 of 3 cases: op.NewUserCode directly with crypto/rand.Reader pinned (alphabets incl. non-ASCII, 1, 256 and 300 runes, dash 0 / 1 / >= n, F17 classes). Non-trivial = a history in which a device code was issued, or a produced user code; distinct = distinct (input hash, set of answer kinds).",
+		Rule: "2 of 3 cases: a history of 6-15 device_authorization/approve/deny/poll operations by 2-3 clients (confidential web, public native, optionally a post/JWT/spa/no-device-grant client) on both routers over one refstore; the provider's issuer is static (with or without a path component) or derived from every request (IssuerFromHost / IssuerFromForwardedOrHost) and every request arrives under its own Host / Forwarded header, so one provider instance serves device authorizations under different issuers; UserFormPath or the deprecated absolute UserFormURL: flow-first (start a flow with canonical credentials, poll, approve, poll) with mutations (foreign client, wrong/missing/post credentials, unknown code, user code as device code, storage deadline/error, bogus user codes, expired devices via negative lifetime, exhausted random source); 1 of 3 cases: op.NewUserCode directly with crypto/rand.Reader pinned (alphabets incl. non-ASCII, 1, 256 and 300 runes, dash 0 / 1 / >= n, F17 classes). Non-trivial = a history in which a device code was issued, or a produced user code; distinct = distinct (input hash, set of answer kinds).",
 		Extra: map[string]any{"clock_ambiguous": extra["clock_ambiguous"]},
 		Notes: []string{"f17=1: user-code configurations that made op.NewUserCode panic before fix F17; f21=1: a client without the device grant starts a flow on the Legacy router (former defect F21, fixed by C05)"},
 	})
